@@ -82,6 +82,9 @@ int cpp_encrypt_ctor(int family, int alg, const unsigned char *key, const unsign
                 unsigned char *c, const unsigned char *m, size_t mlen, const unsigned char *ad, size_t adlen);
 int cpp_decrypt_ctor(int family, int alg, const unsigned char *key, const unsigned char *nonce,
                 unsigned char *m, const unsigned char *c, size_t clen, const unsigned char *ad, size_t adlen);
+/* the same on an object that held another key before (an all-zero key is then given as a zero-length key) */
+int cpp_encrypt_rekey(int family, int alg, const unsigned char *key, const unsigned char *nonce,
+                unsigned char *c, const unsigned char *m, size_t mlen, const unsigned char *ad, size_t adlen);
 #ifdef __cplusplus
 }
 #endif
